@@ -517,16 +517,26 @@ impl Prop for ChainProp {
                             let stream = $stream;
                             pin_mut!(stream);
                             prog2.borrow_mut().sent = true;
+                            let mut read_in_final_poll = false;
                             loop {
                                 if sc2.abandon_after == Some(prog2.borrow().yielded.len()) {
                                     // the caller loses interest: the stream is dropped between two items
                                     world2.borrow_mut().stat("api.reply_stream_dropped_before_its_end");
                                     break;
                                 }
+                                let reads_before = world2.borrow().pipes[rd].data_reads;
                                 let item = stream.next().await;
                                 match item {
                                     None => {
                                         prog2.borrow_mut().stream_ended = true;
+                                        // Reporting the end of the stream obtains no reply; if that
+                                        // poll nevertheless took data from the transport, whatever
+                                        // it disturbed is not the documented weakness of handing
+                                        // out items that borrow from one buffer (known finding).
+                                        if world2.borrow().pipes[rd].data_reads > reads_before {
+                                            read_in_final_poll = true;
+                                            world2.borrow_mut().stat("probe.transport_read_in_the_poll_that_ended_the_stream");
+                                        }
                                         break;
                                     }
                                     Some(it) => {
@@ -569,7 +579,11 @@ impl Prop for ChainProp {
                                 }
                             }
                             if borrowed {
-                                if let Some(f) = check_held(&held, "after the stream ended") {
+                                if let Some(mut f) = check_held(&held, "after the stream ended") {
+                                    if read_in_final_poll && f.0.ends_with("-by-later-transport-read") {
+                                        f.0 = "C11/disturbed-by-a-transport-read-after-the-last-item".into();
+                                        f.1 = format!("{} (the transport read that did it was issued by the poll that returned None, i.e. while no further reply was being obtained)", f.1);
+                                    }
                                     prog2.borrow_mut().fail = Some(f);
                                     return;
                                 }
